@@ -139,6 +139,26 @@ def dataset_case(acc, dn, recs, wkind, frame):
     return fails
 
 
+def big_domain_laws(acc):
+    """product laws must hold as exact integers however large the domain is"""
+    from mbi import Domain
+    fails = []
+    for n, k in [(2, 62), (2, 63), (2, 64), (2, 70), (100, 10), (3, 41), (7, 23)]:
+        attrs = ['x%d' % i for i in range(k)]
+        dom = Domain(attrs, [n] * k)
+        acc.evals += 1
+        if dom.size() != n ** k:
+            fails.append('size() of %d attributes of size %d is %r, expected %d' % (k, n, dom.size(), n ** k))
+        half = attrs[: k // 2]
+        if dom.size(half) * dom.size(dom.invert(half)) != n ** k:
+            fails.append('size(S)*size(invert(S)) != size() for %d attributes of size %d' % (k, n))
+        m = dom.project(half).merge(dom.project(attrs[k // 3:]))
+        if m.size() != n ** k:
+            fails.append('merge size law fails for %d attributes of size %d: %r' % (k, n, m.size()))
+        acc.case({'big-domain': [n, k]})
+    return fails
+
+
 def domain_laws(acc, dn):
     from mbi import Domain
     attrs, shape = DOMAINS[dn]
@@ -193,7 +213,7 @@ def run_job(job):
     acc = Acc()
     dn = job['dom']
     if job.get('laws'):
-        fails = domain_laws(acc, dn)
+        fails = domain_laws(acc, dn) + (big_domain_laws(acc) if dn == 'BA' else [])
         if fails:
             acc.violate({'dom': dn, 'laws': True}, {'kind': 'domain-law', 'law': fails[0].split('(')[0]}, '; '.join(fails[:6]))
         acc.outcome('laws:%s' % ('ok' if not fails else 'FAIL'))
@@ -216,7 +236,7 @@ def run_job(job):
 def replay(case):
     acc = Acc()
     if case.get('laws'):
-        fails = domain_laws(acc, case['dom'])
+        fails = domain_laws(acc, case['dom']) + (big_domain_laws(acc) if case['dom'] == 'BA' else [])
     else:
         recs = record_sets(DOMAINS[case['dom']][1], case['tier'])[case['idx']]
         fails = dataset_case(acc, case['dom'], recs, case['weights'], case['frame'])
